@@ -16,17 +16,20 @@ MC_MODULE = {"int": "MC_ValueInt", "float": "MC_ValueFloat", "string": "MC_Value
 
 def mc_all(cfg_suffix, fams=FAMS, cfg_override=None):
     """run the four model-checking configurations (in parallel), return {fam: (TlcResult, abstract decls)}."""
-    def one(fam):
+    def one(fam, workers=None):
         mod = MC_MODULE[fam]
         cfg = (cfg_override or {}).get(fam) or "%s_%s.cfg" % (mod, cfg_suffix)
         if not os.path.exists(os.path.join(os.path.dirname(os.path.dirname(os.path.dirname(os.path.dirname(__file__)))), "spec", cfg)):
             cfg = "%s_quick.cfg" % mod
-        r = run_tlc(mod, cfg, "mc_%s_%s" % (fam, cfg.replace(".cfg", "")), workers=max(4, 16 // len(fams)))
+        r = run_tlc(mod, cfg, "mc_%s_%s" % (fam, cfg.replace(".cfg", "")), workers=workers or max(4, 16 // len(fams)))
         rows = json_rows(r, "DECL")
         decls = [obj for (_i, obj) in sorted(rows, key=lambda t: t[0])]
         if not decls:
             raise ToolError("model checking run %s emitted no declarations" % cfg)
         return fam, (r, decls)
+    if tier() == "thorough":
+        # the thorough spaces are large: one TLC at a time with all cores
+        return dict(one(f, 16) for f in fams)
     with ThreadPoolExecutor(max_workers=len(fams)) as ex:
         return dict(ex.map(one, fams))
 
